@@ -135,7 +135,10 @@ def edges(ctx, out):
              (100, [(7, 60000), (57, 120000), (58, 30000)]), (192, [(191, 200000), (192, 100000)]), (3, [(2, 120000), (9, 7)]),
              # tempi whose ticks per minute are not a whole number, held for minutes before the next change
              (192, [(0, 120002), (76800, 90000)]), (192, [(0, 120001), (230400, 60000), (230401, 60001)]), (480, [(0, 100003), (500000, 50000)]),
-             (7, [(0, 33333), (40000, 33334), (80000, 1)]), (192, [(0, 117000), (96, 117000), (105, 117000)])]
+             (7, [(0, 33333), (40000, 33334), (80000, 1)]), (192, [(0, 117000), (96, 117000), (105, 117000)]),
+             # tempo lines out of tick order (refused is fine; accepted must be ordered and consistent)
+             (192, [(0, 120000), (768, 60000), (384, 30000)]), (192, [(0, 120000), (500, 90000), (499, 200000), (1000, 60000)]),
+             (480, [(0, 100000), (960, 50000), (480, 200000), (1440, 100000)])]
     for k in range(ctx.n(60, 6000) + len(fixed)):
         if k < len(fixed):
             res, tempo = fixed[k]
